@@ -13,7 +13,7 @@ import math
 
 import numpy as np
 
-from checks.common import hash_tag, to_sparse
+from checks.common import canon_value, hash_tag, quiet_call, to_sparse
 from qmc import gen as G
 from qmc import oracle as O
 from qmc.loader import load
@@ -158,10 +158,10 @@ def run_case(case, seed):
     before = None if case["sparse"] else Ain.tobytes()
     sv = lib.solver
 
-    def make(max_iter, tol):
+    def make(max_iter, tol, verbose=False):
         if case["solver"] == "damped":
-            return sv.NewtonSchulzPseudoinverse(gamma=case["gamma"], max_iter=max_iter, tol=tol, compute_residuals=case["cr"])
-        return sv.HigherOrderNewtonSchulzPseudoinverse(max_iter=max_iter, tol=tol)
+            return sv.NewtonSchulzPseudoinverse(gamma=case["gamma"], max_iter=max_iter, tol=tol, compute_residuals=case["cr"], verbose=verbose)
+        return sv.HigherOrderNewtonSchulzPseudoinverse(max_iter=max_iter, tol=tol, verbose=verbose)
 
     s_arr = np.array(s)
     cond = (s_arr.max() / s_arr.min()) if r else 1.0
@@ -278,6 +278,15 @@ def run_case(case, seed):
         if fails:
             break
         steps_ok += 1
+    if not fails:
+        # verbose=True must not change what is computed (budgets 0, 1 and 3)
+        for kb in (0, 1, 3):
+            okq, rq = quiet_call(make(kb, 0.0).compute, Ain)
+            okv, rv = quiet_call(make(kb, 0.0, verbose=True).compute, Ain)
+            if okq and okv and case["solver"] == "third":
+                rq, rv = rq[:2], rv[:2]  # the third output of the third-order solver is a list of wall-clock times
+            if okq != okv or (okq and canon_value(rq) != canon_value(rv)):
+                fails.append(fail("verbose_changes_result", f"budget {kb}: verbose=True {'raises ' + repr(rv) if not okv else 'returns a different value'}", k=kb, **tags))
     if before is not None and Ain.tobytes() != before:
         fails.append(fail("input_unchanged", "compute modified its argument", **tags))
     return {
